@@ -47,7 +47,7 @@ func genC08(t *rapid.T) c08Scen {
 	s.Redis = rapid.IntRange(0, 3).Draw(t, "backend") == 0
 	n := rapid.IntRange(6, 10).Draw(t, "nlanes")
 	for i := 0; i < n; i++ {
-		l := c08Lane{V: rapid.SampledFrom([]int{4, 5, 5}).Draw(t, "v"), WillQoS: byte(rapid.IntRange(0, 2).Draw(t, "wq")), Retain: rapid.Bool().Draw(t, "wr"),
+		l := c08Lane{V: rapid.SampledFrom([]int{3, 4, 5, 5, 5}).Draw(t, "v"), WillQoS: byte(rapid.IntRange(0, 2).Draw(t, "wq")), Retain: rapid.Bool().Draw(t, "wr"),
 			Props: rapid.IntRange(0, 31).Draw(t, "props"), Subscribe: rapid.Bool().Draw(t, "sub")}
 		l.ExpiryS = rapid.SampledFrom([]int{0, 1, 3, 100}).Draw(t, "expiry")
 		if l.V == 5 {
@@ -105,6 +105,12 @@ func minIval(a, b ival) ival {
 }
 
 func runC08(s c08Scen, c *ev.Case) *ev.Violation {
+	for _, l := range s.Lanes {
+		if l.V == 3 {
+			c.Label("mqtt31_client")
+			break
+		}
+	}
 	cfg := fixture.BaseConfig()
 	cfg, cleanupBackend, bv := withBackend(cfg, s.Redis, c)
 	if bv != nil {
